@@ -58,6 +58,16 @@ def Dump.toRegistry (d : Dump) : Registry :=
     categoryName := fun n => d.catName[n]?
     isQuantityName := fun n => qnames.contains n }
 
+/-- dims as printed in answers: plain names raw, others `x<hex>` -/
+def parseDimEnc (s : String) : Dim :=
+  if s == "-" then [] else
+  (s.splitOn ",").filterMap fun part =>
+    match part.splitOn ":" with
+    | [k, p] => match p.toInt? with
+      | some p => some ((if k.startsWith "x" then unhex (k.drop 1).toString else k), p)
+      | none => none
+    | _ => none
+
 def parseSet (s : String) : List Char :=
   if s == "-" then [] else (s.splitOn ",").filterMap fun h =>
     let v := h.toList.foldl (fun a c => a * 16 + hexVal c) 0
@@ -108,7 +118,18 @@ partial def loop (h out : IO.FS.Stream) (s : Sess) : IO Unit := do
     loop h out s'
   | ["reset"] =>
     out.putStrLn "ok"
-    loop h out { s with ctx := { s.ctx with previous := none } }
+    loop h out { s with ctx := { s.ctx with previous := none, saveAns := true } }
+  | ["regdigest"] =>
+    out.putStrLn "unsupported digest"
+    loop h out s
+  | ["preset", v, d] =>
+    match parseNumeric v with
+    | some v =>
+      out.putStrLn "ok"
+      loop h out { s with ctx := { s.ctx with previous := some ⟨v, parseDimEnc d⟩ } }
+    | none =>
+      out.putStrLn "bad-op"
+      loop h out s
   | ["ans", flag] =>
     out.putStrLn "ok"
     loop h out { s with ctx := { s.ctx with saveAns := flag == "on" } }
